@@ -45,6 +45,8 @@ type writeRec struct {
 }
 
 type Exec struct {
+	letSeq int
+	nogrowHit map[int]bool
 	p        *Prog
 	root     *ssa.Function
 	rootKey  string
